@@ -1,30 +1,8 @@
-/* alloc_stubs.c -- stubs shared by the allocator units (C05/C14/C18): the abort hook, stdio, pthread lock calls.
- * verif_abort (= USER_ABORT, the library's override point) is the only non-returning exit.
- *   -DABORT_CHECKS_FIT : assert that it is reached only when the request does not fit (g_fits pinned by the
- *                        unit's requires) and carry a reachability canary (units where every abort site is live)
- *   -DABORT_UNREACHABLE: assert that it is never reached
- * pthread_mutex_lock/unlock: no-ops that log the lock object (TRUSTED: the lock gives atomicity). */
-#include <pthread.h>
-#include <stdio.h>
-int g_locks, g_unlocks, g_lock_inits; void *g_lock_obj, *g_unlock_obj;
-#ifdef ABORT_CHECKS_FIT
-extern int g_fits;
-#endif
-void verif_abort(char *msg) {
-#ifdef ABORT_CHECKS_FIT
-  __CPROVER_assert(!g_fits, "abort path only when the request does not fit");
-  __CPROVER_assert(0, "canary: abort path reachable");
-#endif
-#ifdef ABORT_UNREACHABLE
-  __CPROVER_assert(0, "abort hook is never reached");
-#endif
-  __CPROVER_assume(0);
-}
-int sprintf(char *s, const char *f, ...) { return 0; }
-int fprintf(FILE *s, const char *f, ...) { return 0; }
-int printf(const char *f, ...) { return 0; }
-int fflush(FILE *s) { return 0; }
-int pthread_mutex_lock(pthread_mutex_t *m) { g_locks++; g_lock_obj = m; return 0; }
-int pthread_mutex_unlock(pthread_mutex_t *m) { g_unlocks++; g_unlock_obj = m; return 0; }
-int pthread_mutex_init(pthread_mutex_t *m, const pthread_mutexattr_t *a) { g_lock_inits++; return 0; }
-int pthread_mutex_destroy(pthread_mutex_t *m) { return 0; }
+/* allocation stubs: the library's typed allocators are malloc + "never NULL" here (failure paths are the
+ * subject of the C14 units); superlu_free = free, so cbmc's --memory-leak-check sees every allocation. */
+#include <stdlib.h>
+#include "slu_mt_ddefs.h"
+int_t *intMalloc(int_t n) { int_t *p = malloc((size_t)(n > 0 ? n : 1) * sizeof(int_t)); __CPROVER_assume(p != NULL); return p; }
+int_t *intCalloc(int_t n) { int_t *p = calloc((size_t)(n > 0 ? n : 1), sizeof(int_t)); __CPROVER_assume(p != NULL); return p; }
+void *superlu_malloc(size_t n) { void *p = malloc(n ? n : 1); __CPROVER_assume(p != NULL); return p; }
+void superlu_free(void *p) { free(p); }
